@@ -100,13 +100,20 @@ Definition str_to_tm (year_cur : Z) (s : list N) : option tm :=
   let n := length s in
   if (n =? 29)%nat then parse_imf s else if (29 <? n)%nat then parse_850 year_cur s else parse_asctime s.
 
-(* http_date_if_modified_since: true = "modified since" (or unparsable date) *)
-Definition modified_since (strict_gt : bool) (year_cur : Z) (ims : list N) (lmtime : Z) : bool :=
+(* how many bytes the parser chosen by str_to_tm consumes: the returned end pointer *)
+Definition consumed (s : list N) : nat :=
+  let n := length s in
+  if (n =? 29)%nat then 29%nat else if (29 <? n)%nat then (n - length (to_comma (skipn 3 s)) + 24)%nat else 24%nat.
+Definition full_match (s : list N) : bool := Nat.eqb (consumed s) (length s).
+
+(* http_date_if_modified_since: true = "modified since" (or not an HTTP-date) *)
+Definition modified_since (strict_gt whole : bool) (year_cur : Z) (ims : list N) (lmtime : Z) : bool :=
   match str_to_tm year_cur ims with
   | None => true
-  | Some t => let it := timegm t in (if strict_gt then lmtime >? it else lmtime >=? it) || (it =? -1)
+  | Some t => if whole && negb (full_match ims) then true
+              else let it := timegm t in (if strict_gt then lmtime >? it else lmtime >=? it) || (it =? -1)
   end.
-Definition if_modified_since := modified_since ims_compare_is_strict_gt.
+Definition if_modified_since := modified_since ims_compare_is_strict_gt ims_requires_full_match.
 
 (* ---------------------------------------------------------------- the three spellings of an instant *)
 Definition d2 (x : Z) : N * N := (Z.to_N (48 + x / 10), Z.to_N (48 + x mod 10)).
